@@ -47,6 +47,30 @@ def case_all_targets(cid, kind, source, nv, funcs, rng, targets, threads=1):
     return (ddgen.header(cid, kind, threads=threads), ops)
 
 
+def case_swaps(cid, kind, nv, funcs, positions, rng, source=None, gc_first=False):
+    """single adjacent level swaps (oxidd_reorder::level_down) with a snapshot before and after each:
+    on BDDs the driver replays every swap on the extracted level_swap and demands an isomorphic table"""
+    ops = [f"VARS {nv}"]
+    if source is not None and list(source) != list(range(nv)):
+        ops.append("ORDER " + " ".join(map(str, source)))
+    for i, t in enumerate(funcs):
+        ops.append(f"TT h{i} {nv} {t:x}")
+    if gc_first:
+        ops.append("GC")          # without dead nodes (otherwise the garbage of the construction takes part)
+    ops.append("SNAP")
+    n = len(funcs)
+    for p in positions:
+        ops.append(f"LEVELDOWN {p}")
+        ops.append("SNAP")
+    # the swapped diagram behaves like a freshly built one
+    for i in rng.sample(range(n), min(n, 8)):
+        ops.append(f"TTI h{n + i} {nv} {funcs[i]:x}")
+        ops.append(f"EQ h{i} h{n + i}")
+    ops.append("SNAP")
+    ops += ["DROPALL", "GC", "SNAP"]
+    return (ddgen.header(cid, kind), ops)
+
+
 def gen_cases(ctx):
     rng = random.Random(ctx.seed * 7919 + 8)
     thorough = ctx.tier == "thorough"
@@ -75,6 +99,25 @@ def gen_cases(ctx):
             cases.append(case_all_targets(f"c{cid}", kind, src, nv, funcs, rng, tg, threads=rng.choice([1, 2, 8]))); cid += 1
         for _ in range(100 if thorough else 12):
             cases.append(ddgen.case_history(f"h{cid}", kind, rng, nv=rng.randrange(3, 7), length=60)); cid += 1
+        # single level swaps: all 256 functions of 3 variables alive x both positions (with and without the
+        # garbage of the construction), subsets of them (nodes become unreferenced and are removed), chains of
+        # swaps on random tables of 4..6 variables
+        for pos in (0, 1):
+            for gcf in (False, True):
+                cases.append(case_swaps(f"s{cid}", kind, 3, list(range(256)), [pos], rng, gc_first=gcf)); cid += 1
+        for src in (ddgen.PERMS3 if thorough else rng.sample(ddgen.PERMS3, 2)):
+            cases.append(case_swaps(f"s{cid}", kind, 3, list(range(256)), [rng.randrange(2) for _ in range(6)], rng,
+                                    source=src, gc_first=rng.random() < 0.5)); cid += 1
+        for _ in range(60 if thorough else 10):
+            funcs = rng.sample(range(256), rng.randrange(1, 12))
+            cases.append(case_swaps(f"s{cid}", kind, 3, funcs, [rng.randrange(2) for _ in range(rng.randrange(1, 6))], rng,
+                                    gc_first=rng.random() < 0.7)); cid += 1
+        for _ in range(150 if thorough else 16):
+            nv = rng.randrange(4, 7)
+            funcs = [ddgen.rand_tt(rng, nv) for _ in range(rng.randrange(1, 14))]
+            src = list(range(nv)); rng.shuffle(src)
+            cases.append(case_swaps(f"s{cid}", kind, nv, funcs, [rng.randrange(nv - 1) for _ in range(rng.randrange(1, 10))], rng,
+                                    source=src if rng.random() < 0.5 else None, gc_first=rng.random() < 0.6)); cid += 1
     return cases
 
 
